@@ -48,6 +48,7 @@ func init() {
 }
 
 func runC05(r *Run) {
+	r.CacheInventory([]string{"consensus", "consensus/storage", "verifier", "pillar"}, cacheTriage, "an election or a verdict memoised under a key that does not pin the chain it was computed on (a tick, a height) survives a reorganisation below it")
 	r.Alias("$m", "recv.momentum")
 	r.Alias("$look", "make(map[types.HashHeight]*nom.AccountBlock)")
 	r.Alias("$hdr", "$m.Content[(iter+1)]")
